@@ -371,7 +371,8 @@ def uninit_cases(rng, n):
             if flags & bit:
                 for _ in range(2): p_ = cab.index(b"\0", p_) + 1
         q = struct.unpack_from("<I", cab, p_)[0]; nblk = struct.unpack_from("<H", cab, p_ + 4)[0]
-        k = rng.randrange(nblk) if nblk else 0
+        if nblk == 0: continue
+        k = rng.randrange(nblk)
         for _ in range(k): q += 8 + dres + struct.unpack_from("<H", cab, q + 4)[0]
         cb = struct.unpack_from("<H", cab, q + 4)[0]
         if cb < 2: continue
